@@ -50,7 +50,7 @@ mod verif_map {
     }
 
     // another type under the same id, or another id, is another key
-    // @h name=map_keys_are_id_and_type tier=quick cap=1 timeout=300 props=C02,C01
+    // @h name=map_keys_are_id_and_type tier=quick cap=1 timeout=900 props=C02,C01
     #[kani::proof]
     #[kani::unwind(4)]
     fn map_keys_are_id_and_type() {
@@ -110,5 +110,31 @@ mod verif_map {
         kani::cover!(op == 1);
         drop(map);
         assert!(drops(1) == 1 && drops(2) == 1, "a stored value was not dropped exactly once");
+    }
+
+    // two shards, symbolic hash seed: the shared-borrow lookups (get_shard) and the exclusive ones
+    // (get_shard_mut: take / remove) must select the same shard for one key, and clear empties all of them
+    // @h name=map_two_shards_consistent tier=thorough cap=1 timeout=3600 mem=24 props=C01,C02,C13
+    #[kani::proof]
+    #[kani::unwind(4)]
+    fn map_two_shards_consistent() {
+        let seed: u64 = kani::any();
+        unsafe { ahash::MODEL_SEED = seed; }
+        let mut map = AssetMap::verif_two_shards();
+        let v: u64 = kani::any();
+        let h = thin(map.insert(entry(1, v, "a")));
+        assert!(map.contains_key("a", T()) && thin(map.get("a", T()).unwrap()) == h);
+        let which: bool = kani::any();
+        if which {
+            let e = map.take("a", T());
+            assert!(e.is_some(), "take did not find an entry that get finds (shard selection differs between &self and &mut self)");
+            assert!(!map.contains_key("a", T()));
+            std::mem::forget(e);
+        } else {
+            map.clear();
+            assert!(!map.contains_key("a", T()) && drops(1) == 1, "clear left an entry behind in one of the shards");
+        }
+        kani::cover!(which);
+        std::mem::forget(map);
     }
 }
